@@ -214,7 +214,15 @@ def mermaid_id_clash(case, msg, observed=None):
     return all(p.get("code") == 1 or p.get("code") == 5 or touches(p.get("a")) or touches(p.get("b")) for p in probs)
 
 
-MATCHERS = {f.__name__: f for f in (mermaid_id_clash, viz_shared_producer_in_container, nested_interrupt_resume, equal_but_distinct_default, stop_iteration_async, waiter_with_edge_default, ambiguous_cycle_entry, empty_map_silent, viz_renamed_boundary, interrupt_handler_wrapped, interrupt_with_edge_default, bound_output_name)}
+def equal_value_signal(case, msg, observed=None):
+    """A gate (or node) that waits for a DATA output whose producer returns an EQUAL value on every pass: the name's version
+    only advances when the value changes, so the later productions are invisible to the waiter and the loop stalls."""
+    if not isinstance(case, dict) or case.get("family") != "value_signal":
+        return False
+    return bool(case.get("constant_status")) and "was not followed by a run of the waiter" in (msg or "")
+
+
+MATCHERS = {f.__name__: f for f in (equal_value_signal, mermaid_id_clash, viz_shared_producer_in_container, nested_interrupt_resume, equal_but_distinct_default, stop_iteration_async, waiter_with_edge_default, ambiguous_cycle_entry, empty_map_silent, viz_renamed_boundary, interrupt_handler_wrapped, interrupt_with_edge_default, bound_output_name)}
 
 
 def classify(ctx, case, msg, observed=None):
